@@ -1,3 +1,4 @@
 import Cfdp.Model.Segments
 import Cfdp.Lemmas.Segments
 import Cfdp.Props.C09
+import Cfdp.Props.C14
